@@ -1,10 +1,14 @@
-(** C16 — the rate-in-force invariant of the protocol model, for ALL histories.
+(** C16 — the rate-in-force invariant of the protocol model, for ALL histories (no exception class).
 
-    [Inv]: dt = 1/rate; every main-track effect was last told the device rate; every track anywhere (arena or
-    queue, any depth) that is not marked [raced] has all its effects (and their nested effects) last told the
-    device rate; every caller thread between load and enqueue that is not marked [raced] holds the device rate.
-    [raced] is set exactly by a change to a different rate that happens while the track is between its load and
-    its pick-up, and cleared when a fan-out reaches the track. *)
+    [coherent t]: every effect of [t] (and their nested effects) was last told the rate [t] remembers
+    ([Track.sample_rate]); every sub-track in its arena remembers the same rate and is coherent; every sub-track on
+    its queue is coherent (it may remember ANOTHER rate: that is the track that was queued across a change).
+    [live r t]: [t] remembers [r] and is coherent -- all effects reachable through arenas were last told [r].
+    [Inv]: dt = 1/rate, the mixer's copy is the device rate; every main-track effect was last told the device rate;
+    every track in the mixer's arenas is live at the device rate; every track on the mixer's queues is coherent;
+    a caller thread between load and enqueue holds a freshly built track.
+    The comparison in [on_start_processing] turns "coherent" into "live at the rate in force" at pick-up; that is
+    the step that did not exist before the repair of F14. *)
 From Coq Require Import ZArith List Bool Lia.
 From KV Require Import C16.Model C16.ProofsWitness.
 Import ListNotations.
@@ -62,23 +66,19 @@ Proof. intros F. rewrite Forall_forall in F. apply F. Qed.
 (** ** the state predicates *)
 Fixpoint eff_fresh (r : Z) (e : effect) : bool :=
   match e with Eff _ _ told fb => (last_told told =? r) && forallb (eff_fresh r) fb end.
-Definition trk_raced (t : track) : bool := match t with Trk _ rc _ _ _ => rc end.
-Fixpoint trk_inv (r : Z) (t : track) : bool :=
+Fixpoint coherent (t : track) : bool :=
   match t with
-  | Trk _ rc effs ar q => (rc || forallb (eff_fresh r) effs) && forallb (trk_inv r) ar && forallb (trk_inv r) q
+  | Trk _ tr effs ar q =>
+      forallb (eff_fresh tr) effs && forallb (fun x => (trk_rate x =? tr) && coherent x) ar && forallb coherent q
   end.
-Definition pend_inv (r : Z) (p : pending) : bool :=
-  match p_track p with Trk _ rc _ [] [] => rc || (p_loaded p =? r) | _ => false end.
+Definition live (r : Z) (t : track) : bool := (trk_rate t =? r) && coherent t.
+Definition pend_inv (p : pending) : bool :=
+  match p_track p with Trk _ _ _ [] [] => true | _ => false end.
 Definition all_tracks (s : state) : list track := s_subs s ++ s_subq s ++ s_sends s ++ s_sendq s.
 
 Definition Inv (s : state) : Prop :=
-  s_dtr s = s_rate s /\ fa (eff_fresh (s_rate s)) (s_main s) /\
-  fa (trk_inv (s_rate s)) (all_tracks s) /\ fa (pend_inv (s_rate s)) (s_pend s).
-
-(** no track anywhere carries the [raced] mark *)
-Fixpoint clean (t : track) : bool :=
-  match t with Trk _ rc _ ar q => negb rc && forallb clean ar && forallb clean q end.
-Definition NoRaced (s : state) : Prop := fa clean (all_tracks s) /\ fa (fun p => clean (p_track p)) (s_pend s).
+  s_dtr s = s_rate s /\ s_mix s = s_rate s /\ fa (eff_fresh (s_rate s)) (s_main s) /\
+  fa (live (s_rate s)) (s_subs s ++ s_sends s) /\ fa coherent (s_subq s ++ s_sendq s) /\ fa pend_inv (s_pend s).
 
 (** ** effects *)
 Lemma tell_fresh h r e : eff_fresh r (tell h r e) = true.
@@ -90,58 +90,88 @@ Lemma tell_all_fresh h r l : fa (eff_fresh r) (map (tell h r) l).
 Proof. apply fa_map. apply fa_all. intros x _. apply tell_fresh. Qed.
 
 (** ** tracks *)
-Lemma trk_inv_unfold r i rc effs ar q :
-  trk_inv r (Trk i rc effs ar q) = true <->
-  (rc = true \/ fa (eff_fresh r) effs) /\ fa (trk_inv r) ar /\ fa (trk_inv r) q.
-Proof. cbn [trk_inv]. rewrite !andb_true_iff, orb_true_iff. unfold fa. tauto. Qed.
-Lemma clean_unfold i rc effs ar q :
-  clean (Trk i rc effs ar q) = true <-> rc = false /\ fa clean ar /\ fa clean q.
-Proof. cbn [clean]. rewrite !andb_true_iff, negb_true_iff. unfold fa. tauto. Qed.
-
-Lemma mark_raced_inv r t : trk_inv r (mark_raced t) = true.
+Lemma coherent_unfold i tr effs ar q :
+  coherent (Trk i tr effs ar q) = true <-> fa (eff_fresh tr) effs /\ fa (live tr) ar /\ fa coherent q.
+Proof. cbn [coherent]. rewrite !andb_true_iff. unfold fa, live. tauto. Qed.
+Lemma live_unfold r i tr effs ar q :
+  live r (Trk i tr effs ar q) = true <-> tr = r /\ fa (eff_fresh r) effs /\ fa (live r) ar /\ fa coherent q.
 Proof.
-  induction t as [i rc effs ar q IHa IHq] using track_ind'. cbn [mark_raced]. apply trk_inv_unfold.
-  split; [left; reflexivity|]. split; apply fa_map, fa_all; intros x Hx; [exact (Forall_In _ _ _ IHa Hx)|exact (Forall_In _ _ _ IHq Hx)].
+  unfold live. cbn [trk_rate]. rewrite andb_true_iff, Z.eqb_eq, coherent_unfold.
+  split; [intros [E H]; subst tr; tauto|intros [E H]; subst tr; tauto].
+Qed.
+Lemma live_coherent r t : live r t = true -> coherent t = true.
+Proof. unfold live. intro H. apply andb_true_iff in H. tauto. Qed.
+Lemma live_rate r t : live r t = true -> trk_rate t = r.
+Proof. unfold live. intro H. apply andb_true_iff in H. destruct H as [H _]. apply Z.eqb_eq. exact H. Qed.
+Lemma fa_live_coherent r l : fa (live r) l -> fa coherent l.
+Proof. apply fa_impl. intros x _. apply live_coherent. Qed.
+
+(** [on_change_sample_rate] makes a coherent track live at the new rate *)
+Lemma change_track_live r t : coherent t = true -> live r (change_track r t) = true.
+Proof.
+  induction t as [i tr effs ar q IHa IHq] using track_ind'. intro Ht. apply coherent_unfold in Ht.
+  destruct Ht as [_ [Ha Hq]]. cbn [change_track]. apply live_unfold.
+  split; [reflexivity|]. split; [apply tell_all_fresh|]. split; [|exact Hq].
+  apply fa_map, fa_all. intros x Hx. apply (Forall_In _ _ _ IHa Hx).
+  apply (live_coherent tr). apply (proj1 (fa_in _ _) Ha x Hx).
 Qed.
 
-Lemma change_track_inv d r t : (d = true \/ trk_inv r t = true) -> trk_inv r (change_track d r t) = true.
+(** [on_start_processing(r)] WITH the comparison makes a coherent track live at [r], whatever rate it remembered *)
+Lemma start_track_live chg r t : coherent t = true -> live r (start_track true chg r t) = true.
 Proof.
-  induction t as [i rc effs ar q IHa IHq] using track_ind'. intro Hd. cbn [change_track]. apply trk_inv_unfold.
-  split; [right; apply tell_all_fresh|]. split.
-  - apply fa_map, fa_all. intros x Hx. apply (Forall_In _ _ _ IHa Hx).
-    destruct Hd as [Hd|Hd]; [left; exact Hd|right]. apply trk_inv_unfold in Hd. destruct Hd as [_ [Ha _]].
-    apply (proj1 (fa_in _ _) Ha x Hx).
-  - destruct d.
-    + apply fa_map, fa_all. intros x _. apply mark_raced_inv.
-    + destruct Hd as [Hd|Hd]; [discriminate|]. apply trk_inv_unfold in Hd. tauto.
+  revert chg. induction t as [i tr effs ar q IHa IHq] using track_ind'. intros chg Ht. apply coherent_unfold in Ht.
+  destruct Ht as [He [Ha Hq]]. cbn [start_track andb].
+  assert (Q : fa (live r) (rev (map (start_track true false r) q))).
+  { apply fa_rev, fa_map, fa_all. intros x Hx. apply (Forall_In _ _ _ IHq Hx). apply (proj1 (fa_in _ _) Hq x Hx). }
+  assert (A : forall c, fa (live r) (map (start_track true c r) ar)).
+  { intro c. apply fa_map, fa_all. intros x Hx. apply (Forall_In _ _ _ IHa Hx).
+    apply (live_coherent tr). apply (proj1 (fa_in _ _) Ha x Hx). }
+  apply live_unfold. destruct chg.
+  - rewrite Z.eqb_refl. cbn [negb orb]. split; [reflexivity|]. split; [apply tell_all_fresh|].
+    split; [apply fa_app; split; [exact Q|apply A]|apply fa_nil].
+  - cbn [orb]. destruct (tr =? r) eqn:E; cbn [negb].
+    + apply Z.eqb_eq in E. subst tr. split; [reflexivity|]. split; [exact He|].
+      split; [apply fa_app; split; [exact Q|apply A]|apply fa_nil].
+    + split; [reflexivity|]. split; [apply tell_all_fresh|].
+      split; [apply fa_app; split; [exact Q|apply A]|apply fa_nil].
 Qed.
 
-Lemma pickup_inv r t : trk_inv r t = true -> trk_inv r (pickup t) = true.
+(** the flag of [start_track] is what it is said to be: the parent's [on_change_sample_rate] came first *)
+Lemma start_after_change_l rs r t : start_track rs true r t = start_track rs false r (change_track r t).
 Proof.
-  induction t as [i rc effs ar q IHa IHq] using track_ind'. intro Ht. apply trk_inv_unfold in Ht.
-  destruct Ht as [He [Ha Hq]]. cbn [pickup]. apply trk_inv_unfold. split; [exact He|]. split; [|apply fa_nil].
-  apply fa_app. split.
-  - apply fa_rev, fa_map, fa_all. intros x Hx. apply (Forall_In _ _ _ IHq Hx). apply (proj1 (fa_in _ _) Hq x Hx).
-  - apply fa_map, fa_all. intros x Hx. apply (Forall_In _ _ _ IHa Hx). apply (proj1 (fa_in _ _) Ha x Hx).
+  induction t as [i tr effs ar q IHa IHq] using track_ind'. cbn [change_track start_track].
+  rewrite Z.eqb_refl. cbn [negb]. rewrite andb_false_r. cbn [orb]. f_equal. f_equal.
+  rewrite map_map. apply map_ext_in. intros x Hx. exact (Forall_In _ _ _ IHa Hx).
 Qed.
 
-Lemma push_under_inv r pid nt t : trk_inv r nt = true -> trk_inv r t = true -> trk_inv r (push_under pid nt t) = true.
+Lemma push_under_rate pid nt t : trk_rate (push_under pid nt t) = trk_rate t.
+Proof. destruct t. reflexivity. Qed.
+Lemma push_under_coherent pid nt t : coherent nt = true -> coherent t = true -> coherent (push_under pid nt t) = true.
 Proof.
-  intro Hn. induction t as [i rc effs ar q IHa IHq] using track_ind'. intro Ht. apply trk_inv_unfold in Ht.
-  destruct Ht as [He [Ha Hq]]. cbn [push_under]. apply trk_inv_unfold. split; [exact He|].
-  assert (Q : fa (trk_inv r) (map (push_under pid nt) q)).
+  intro Hn. induction t as [i tr effs ar q IHa IHq] using track_ind'. intro Ht. apply coherent_unfold in Ht.
+  destruct Ht as [He [Ha Hq]]. cbn [push_under]. apply coherent_unfold. split; [exact He|].
+  assert (Q : fa coherent (map (push_under pid nt) q)).
   { apply fa_map, fa_all. intros x Hx. apply (Forall_In _ _ _ IHq Hx). apply (proj1 (fa_in _ _) Hq x Hx). }
   split.
-  - apply fa_map, fa_all. intros x Hx. apply (Forall_In _ _ _ IHa Hx). apply (proj1 (fa_in _ _) Ha x Hx).
+  - apply fa_map, fa_all. intros x Hx. pose proof (proj1 (fa_in _ _) Ha x Hx) as Lx.
+    unfold live. rewrite push_under_rate. apply andb_true_iff. split.
+    + apply Z.eqb_eq. apply (live_rate _ _ Lx).
+    + apply (Forall_In _ _ _ IHa Hx). apply (live_coherent _ _ Lx).
   - destruct (i =? pid); [|exact Q]. apply fa_app. split; [exact Q|]. apply fa_cons. split; [exact Hn|apply fa_nil].
 Qed.
-
-Lemma init_pending_inv r p : pend_inv r p = true -> trk_inv r (init_track (p_loaded p) (p_track p)) = true.
+Lemma push_under_live r pid nt t : coherent nt = true -> live r t = true -> live r (push_under pid nt t) = true.
 Proof.
-  unfold pend_inv. destruct (p_track p) as [i rc effs ar q]. destruct ar; [|discriminate]. destruct q; [|discriminate].
-  intro H. cbn [init_track map]. apply trk_inv_unfold. split; [|split; apply fa_nil].
-  apply orb_true_iff in H. destruct H as [H|H]; [left; exact H|right].
-  apply Z.eqb_eq in H. rewrite H. apply tell_all_fresh.
+  intros Hn Ht. unfold live. rewrite push_under_rate. apply andb_true_iff. split.
+  - apply Z.eqb_eq. apply (live_rate _ _ Ht).
+  - apply push_under_coherent; [exact Hn|apply (live_coherent _ _ Ht)].
+Qed.
+
+(** [init_effects(loaded)] on a freshly built track: coherent, remembering the rate the caller loaded *)
+Lemma init_pending_live p : pend_inv p = true -> live (p_loaded p) (init_track (p_loaded p) (p_track p)) = true.
+Proof.
+  unfold pend_inv. destruct (p_track p) as [i tr effs ar q]. destruct ar; [|discriminate]. destruct q; [|discriminate].
+  intros _. cbn [init_track map]. apply live_unfold. split; [reflexivity|]. split; [apply tell_all_fresh|].
+  split; apply fa_nil.
 Qed.
 
 (** ** the invariant holds initially and is preserved by every step *)
@@ -150,80 +180,62 @@ Proof. unfold find_pending. intro H. apply find_some in H. tauto. Qed.
 
 Lemma Inv_init sr ibs main : Inv (init_state sr ibs main).
 Proof.
-  unfold Inv, init_state, all_tracks. cbn. split; [reflexivity|]. split; [|split; reflexivity].
+  unfold Inv, init_state. cbn. split; [reflexivity|]. split; [reflexivity|]. split; [|repeat split; reflexivity].
   apply fa_map, fa_all. intros x _. apply tell_fresh.
 Qed.
 
-Ltac split_tracks H :=
-  unfold all_tracks in H; cbn [s_subs s_subq s_sends s_sendq] in H;
-  repeat (apply fa_app in H; let H1 := fresh "T" in destruct H as [H1 H]).
-
 Lemma step_Inv fo s o : Inv s -> Inv (fst (step fo s o)).
 Proof.
-  intros [Hdt [Hm [Ht Hp]]]. destruct o as [slot d sh|slot|r|n]; cbn [step].
+  intros [Hdt [Hmx [Hm [Hl [Hq Hp]]]]]. unfold step. destruct o as [slot d sh|slot|r|n]; cbn [step_gen].
   - (* load *)
     destruct (find_pending slot (s_pend s)); cbn [fst]; [repeat split; assumption|].
-    unfold Inv, all_tracks in *. cbn. repeat split; try assumption.
-    apply fa_app. split; [exact Hp|]. apply fa_cons. split; [|apply fa_nil].
-    unfold pend_inv, build_track. cbn. rewrite Z.eqb_refl. reflexivity.
+    unfold Inv in *. cbn [s_rate s_dtr s_mix s_main s_subs s_subq s_sends s_sendq s_pend].
+    repeat split; try assumption.
+    apply fa_app. split; [exact Hp|]. apply fa_cons. split; [reflexivity|apply fa_nil].
   - (* enqueue *)
     destruct (find_pending slot (s_pend s)) as [p|] eqn:F; cbn [fst]; [|repeat split; assumption].
     pose proof (proj1 (fa_in _ _) Hp p (find_pending_in _ _ _ F)) as Pp.
-    pose proof (init_pending_inv _ _ Pp) as Tn.
-    assert (Hp' : fa (pend_inv (s_rate s)) (remove_pending slot (s_pend s))) by (apply fa_filter; exact Hp).
-    split_tracks Ht.
-    destruct (p_dest p) as [|pid|]; cbn [fst]; unfold Inv, all_tracks; cbn [s_rate s_dtr s_main s_subs s_subq s_sends s_sendq s_pend];
-      (split; [exact Hdt|]); (split; [exact Hm|]); (split; [|exact Hp']).
-    + repeat (apply fa_app; split); try assumption. apply fa_cons. split; [exact Tn|apply fa_nil].
-    + repeat (apply fa_app; split); try assumption.
-      * apply fa_map, fa_all. intros x Hx. apply push_under_inv; [exact Tn|]. apply (proj1 (fa_in _ _) T x Hx).
-      * apply fa_map, fa_all. intros x Hx. apply push_under_inv; [exact Tn|]. apply (proj1 (fa_in _ _) T0 x Hx).
-    + repeat (apply fa_app; split); try assumption. apply fa_cons. split; [exact Tn|apply fa_nil].
+    pose proof (live_coherent _ _ (init_pending_live _ Pp)) as Tn.
+    assert (Hp' : fa pend_inv (remove_pending slot (s_pend s))) by (apply fa_filter; exact Hp).
+    apply fa_app in Hl. destruct Hl as [L1 L2]. apply fa_app in Hq. destruct Hq as [Q1 Q2].
+    destruct (p_dest p) as [|pid|]; cbn [fst]; unfold Inv; cbn [s_rate s_dtr s_mix s_main s_subs s_subq s_sends s_sendq s_pend];
+      (split; [exact Hdt|]); (split; [exact Hmx|]); (split; [exact Hm|]).
+    + split; [apply fa_app; split; assumption|]. split; [|exact Hp'].
+      repeat (apply fa_app; split); try assumption. apply fa_cons. split; [exact Tn|apply fa_nil].
+    + split; [|split; [|exact Hp']].
+      * apply fa_app. split; [|exact L2].
+        apply fa_map, fa_all. intros x Hx. apply push_under_live; [exact Tn|]. apply (proj1 (fa_in _ _) L1 x Hx).
+      * apply fa_app. split; [|exact Q2].
+        apply fa_map, fa_all. intros x Hx. apply push_under_coherent; [exact Tn|]. apply (proj1 (fa_in _ _) Q1 x Hx).
+    + split; [apply fa_app; split; assumption|]. split; [|exact Hp'].
+      repeat (apply fa_app; split); try assumption. apply fa_cons. split; [exact Tn|apply fa_nil].
   - (* change *)
-    cbn [fst]. unfold Inv, all_tracks. cbn [s_rate s_dtr s_main s_subs s_subq s_sends s_sendq s_pend].
-    split; [reflexivity|]. split; [apply tell_all_fresh|].
-    split_tracks Ht.
-    destruct (r =? s_rate s) eqn:E; cbn [negb].
-    + apply Z.eqb_eq in E. subst r. split; [|exact Hp].
-      repeat (apply fa_app; split); try assumption.
-      * apply fa_map, fa_all. intros x Hx. apply change_track_inv. right. apply (proj1 (fa_in _ _) T x Hx).
-      * apply fa_map, fa_all. intros x Hx. apply change_track_inv. right. apply (proj1 (fa_in _ _) T1 x Hx).
-    + split.
-      * repeat (apply fa_app; split).
-        -- apply fa_map, fa_all. intros x _. apply change_track_inv. left. reflexivity.
-        -- apply fa_map, fa_all. intros x _. apply mark_raced_inv.
-        -- apply fa_map, fa_all. intros x _. apply change_track_inv. left. reflexivity.
-        -- apply fa_map, fa_all. intros x _. apply mark_raced_inv.
-      * apply fa_map, fa_all. intros p Hpi. pose proof (proj1 (fa_in _ _) Hp p Hpi) as Pp.
-        unfold pend_inv in *. unfold mark_pending. cbn [p_track p_loaded].
-        destruct (p_track p) as [i rc effs ar q]. destruct ar; [|discriminate]. destruct q; [|discriminate]. reflexivity.
+    cbn [fst]. unfold Inv. cbn [s_rate s_dtr s_mix s_main s_subs s_subq s_sends s_sendq s_pend].
+    split; [reflexivity|]. split; [reflexivity|]. split; [apply tell_all_fresh|].
+    apply fa_app in Hl. destruct Hl as [L1 L2].
+    split; [|split; assumption].
+    apply fa_app. split; apply fa_map, fa_all; intros x Hx; apply change_track_live; apply (live_coherent (s_rate s)).
+    + apply (proj1 (fa_in _ _) L1 x Hx).
+    + apply (proj1 (fa_in _ _) L2 x Hx).
   - (* callback *)
-    cbn [fst]. unfold Inv, all_tracks. cbn [s_rate s_dtr s_main s_subs s_subq s_sends s_sendq s_pend].
-    split; [exact Hdt|]. split; [exact Hm|]. split; [|exact Hp].
-    split_tracks Ht. cbn [app]. rewrite app_nil_r.
-    repeat (apply fa_app; split); try assumption.
-    + apply fa_map. apply fa_app. split; [apply fa_rev|].
-      * apply fa_all. intros x Hx. apply pickup_inv. apply (proj1 (fa_in _ _) T0 x Hx).
-      * apply fa_all. intros x Hx. apply pickup_inv. apply (proj1 (fa_in _ _) T x Hx).
-    + apply fa_rev. exact Ht.
+    cbn [fst]. unfold Inv. cbn [s_rate s_dtr s_mix s_main s_subs s_subq s_sends s_sendq s_pend].
+    split; [exact Hdt|]. split; [exact Hmx|]. split; [exact Hm|]. split; [|split; [apply fa_nil|exact Hp]].
+    apply fa_app in Hl. destruct Hl as [L1 L2]. apply fa_app in Hq. destruct Hq as [Q1 Q2]. rewrite Hmx.
+    apply fa_app. split; apply fa_map, fa_all; intros x Hx; apply start_track_live; apply in_app_or in Hx; destruct Hx as [Hx|Hx].
+    + apply in_rev in Hx. apply (proj1 (fa_in _ _) Q1 x Hx).
+    + apply (live_coherent (s_rate s)). apply (proj1 (fa_in _ _) L1 x Hx).
+    + apply in_rev in Hx. apply (proj1 (fa_in _ _) Q2 x Hx).
+    + apply (live_coherent (s_rate s)). apply (proj1 (fa_in _ _) L2 x Hx).
 Qed.
 
 Lemma run_Inv fo h : forall s, Inv s -> Inv (fst (run fo s h)).
 Proof.
-  induction h as [|o h IH]; intros s Hs; cbn [run]; [exact Hs|].
-  pose proof (step_Inv fo s o Hs) as H1. destruct (step fo s o) as [s1 e1]. cbn [fst] in H1.
-  specialize (IH s1 H1). destruct (run fo s1 h) as [s2 e2]. exact IH.
+  unfold run. induction h as [|o h IH]; intros s Hs; cbn [run_gen]; [exact Hs|].
+  pose proof (step_Inv fo s o Hs) as H1. unfold step in H1. destruct (step_gen fo true s o) as [s1 e1]. cbn [fst] in H1.
+  specialize (IH s1 H1). destruct (run_gen fo true s1 h) as [s2 e2]. exact IH.
 Qed.
 
 (** ** what the invariant says about the [process] calls *)
-Definition ev_id (e : event) : Z := let '(i, _, _, _) := e in i.
-Fixpoint eff_ids (e : effect) : list Z := match e with Eff i _ _ fb => i :: flat_map eff_ids fb end.
-(** the effects that process (arena-reachable) and belong to a track marked [raced] *)
-Fixpoint raced_ids (t : track) : list Z :=
-  match t with
-  | Trk _ rc effs ar _ => (if rc then flat_map eff_ids effs else []) ++ flat_map raced_ids ar
-  end.
-
 Lemma Forall_flat_map' {A B} (P : B -> Prop) (f : A -> list B) l :
   (forall x, In x l -> Forall P (f x)) -> Forall P (flat_map f l).
 Proof.
@@ -245,198 +257,89 @@ Section Ev.
       apply (Forall_In _ _ _ IH Hx). apply (proj1 (fa_in _ _) Hfb x Hx).
   Qed.
 
-  Lemma process_effect_ids d e : forall n, Forall (fun ev => In (ev_id ev) (eff_ids e)) (process_effect fo d n e).
+  (** every [process] call below a live track is made by an effect that was last told that track's rate *)
+  Lemma process_track_live r d n t : live r t = true ->
+    Forall (fun ev => let '(_, told, dtr, _) := ev in told = r /\ dtr = d) (process_track fo d n t).
   Proof.
-    induction e as [i k told fb IH] using effect_ind'. intro n. destruct k as [|t]; cbn [process_effect eff_ids].
-    - constructor; [left; reflexivity|constructor].
-    - apply Forall_flat_map'. intros c _. apply Forall_flat_map'. intros x Hx.
-      eapply Forall_impl; [|apply (Forall_In _ _ _ IH Hx)]. intros ev Hev. right. apply in_flat_map. exists x. split; assumption.
+    induction t as [i tr effs ar q IHa IHq] using track_ind'. intro Ht. apply live_unfold in Ht.
+    destruct Ht as [_ [He [Ha _]]]. cbn [process_track]. apply Forall_app. split.
+    - apply Forall_flat_map'. intros x Hx. apply (Forall_In _ _ _ IHa Hx). apply (proj1 (fa_in _ _) Ha x Hx).
+    - apply Forall_flat_map'. intros e Hein. apply process_effect_fresh. apply (proj1 (fa_in _ _) He e Hein).
   Qed.
 
-  Definition ev_fine (r d : Z) (bad : list Z) (ev : event) : Prop :=
-    (let '(_, told, dtr, _) := ev in told = r /\ dtr = d) \/ In (ev_id ev) bad.
-
-  Lemma process_track_fine r d n t : trk_inv r t = true ->
-    Forall (ev_fine r d (raced_ids t)) (process_track fo d n t).
-  Proof.
-    induction t as [i rc effs ar q IHa IHq] using track_ind'. intro Ht. apply trk_inv_unfold in Ht.
-    destruct Ht as [He [Ha _]]. cbn [process_track raced_ids]. apply Forall_app. split.
-    - apply Forall_flat_map'. intros x Hx.
-      eapply Forall_impl; [|apply (Forall_In _ _ _ IHa Hx); apply (proj1 (fa_in _ _) Ha x Hx)].
-      intros ev [Hev|Hev]; [left; exact Hev|right]. apply in_or_app. right. apply in_flat_map. exists x. split; assumption.
-    - apply Forall_flat_map'. intros e Hein. destruct He as [He|He].
-      + subst rc. eapply Forall_impl; [|apply process_effect_ids]. intros ev Hev. right. apply in_or_app. left.
-        apply in_flat_map. exists e. split; assumption.
-      + eapply Forall_impl; [|apply process_effect_fresh; apply (proj1 (fa_in _ _) He e Hein)].
-        intros ev Hev. left. exact Hev.
-  Qed.
-
-  (** every [process] call of a callback is in force, except those of effects on tracks that raced with a change *)
+  (** every [process] call of a callback is in force *)
   Lemma callback_events s n : Inv s ->
-    let s' := fst (step fo s (A_callback n)) in
-    Forall (ev_fine (s_rate s') (s_rate s') (flat_map raced_ids (s_subs s' ++ s_sends s'))) (snd (step fo s (A_callback n))).
+    Forall (ev_ok (s_rate (fst (step fo s (A_callback n))))) (snd (step fo s (A_callback n))).
   Proof.
-    intro HI. pose proof (step_Inv fo s (A_callback n) HI) as HI'. cbn zeta.
+    intro HI. pose proof (step_Inv fo s (A_callback n) HI) as HI'.
     set (s' := fst (step fo s (A_callback n))) in *.
     assert (E : snd (step fo s (A_callback n)) = flat_map (process_chunk fo s') (chunks_of n (s_ibs s))) by reflexivity.
-    rewrite E. clear E. destruct HI' as [Hdt [Hm [Ht _]]]. unfold all_tracks in Ht.
-    apply fa_app in Ht. destruct Ht as [T1 Ht]. apply fa_app in Ht. destruct Ht as [_ Ht].
-    apply fa_app in Ht. destruct Ht as [T2 _].
+    rewrite E. clear E. destruct HI' as [Hdt [_ [Hm [Hl _]]]]. apply fa_app in Hl. destruct Hl as [L1 L2].
     apply Forall_flat_map'. intros c _. unfold process_chunk. rewrite Hdt. repeat (apply Forall_app; split).
     - apply Forall_flat_map'. intros t Hti.
-      eapply Forall_impl; [|apply process_track_fine; apply (proj1 (fa_in _ _) T1 t Hti)].
-      intros ev [Hev|Hev]; [left; exact Hev|right]. apply in_flat_map. exists t. split; [apply in_or_app; left; exact Hti|exact Hev].
+      eapply Forall_impl; [|apply (process_track_live (s_rate s')); apply (proj1 (fa_in _ _) L1 t Hti)].
+      intros [[[i tl] d] m] Hev. exact Hev.
     - apply Forall_flat_map'. intros t Hti.
-      eapply Forall_impl; [|apply process_track_fine; apply (proj1 (fa_in _ _) T2 t Hti)].
-      intros ev [Hev|Hev]; [left; exact Hev|right]. apply in_flat_map. exists t. split; [apply in_or_app; right; exact Hti|exact Hev].
+      eapply Forall_impl; [|apply (process_track_live (s_rate s')); apply (proj1 (fa_in _ _) L2 t Hti)].
+      intros [[[i tl] d] m] Hev. exact Hev.
     - apply Forall_flat_map'. intros e Hei.
-      eapply Forall_impl; [|apply process_effect_fresh; apply (proj1 (fa_in _ _) Hm e Hei)]. intros ev Hev. left. exact Hev.
+      eapply Forall_impl; [|apply process_effect_fresh; apply (proj1 (fa_in _ _) Hm e Hei)].
+      intros [[[i tl] d] m] Hev. exact Hev.
   Qed.
 End Ev.
 
-(** ** under the guard nothing is ever marked [raced] *)
-Lemma clean_no_raced t : clean t = true -> raced_ids t = [].
+(** ** the general theorem: every [process] call of every callback of EVERY history is in force *)
+Lemma Inv_all_in_force fo h : forall s, Inv s -> all_in_force fo s h.
 Proof.
-  induction t as [i rc effs ar q IHa IHq] using track_ind'. intro H. apply clean_unfold in H. destruct H as [Hr [Ha _]].
-  subst rc. cbn [raced_ids app]. induction ar as [|a ar IH]; [reflexivity|]. cbn [flat_map].
-  apply fa_cons in Ha. destruct Ha as [Ca Ha]. inversion IHa as [|? ? Pa Pl]; subst.
-  rewrite (Pa Ca). cbn [app]. apply IH; assumption.
-Qed.
-
-Lemma init_track_clean r t : clean t = true -> clean (init_track r t) = true.
-Proof.
-  induction t as [i rc effs ar q IHa IHq] using track_ind'. intro H. apply clean_unfold in H. destruct H as [Hr [Ha Hq]].
-  cbn [init_track]. apply clean_unfold. split; [exact Hr|]. split; [|exact Hq].
-  apply fa_map, fa_all. intros x Hx. apply (Forall_In _ _ _ IHa Hx). apply (proj1 (fa_in _ _) Ha x Hx).
-Qed.
-Lemma pickup_clean t : clean t = true -> clean (pickup t) = true.
-Proof.
-  induction t as [i rc effs ar q IHa IHq] using track_ind'. intro H. apply clean_unfold in H. destruct H as [Hr [Ha Hq]].
-  cbn [pickup]. apply clean_unfold. split; [exact Hr|]. split; [|apply fa_nil]. apply fa_app. split.
-  - apply fa_rev, fa_map, fa_all. intros x Hx. apply (Forall_In _ _ _ IHq Hx). apply (proj1 (fa_in _ _) Hq x Hx).
-  - apply fa_map, fa_all. intros x Hx. apply (Forall_In _ _ _ IHa Hx). apply (proj1 (fa_in _ _) Ha x Hx).
-Qed.
-Lemma push_under_clean pid nt t : clean nt = true -> clean t = true -> clean (push_under pid nt t) = true.
-Proof.
-  intro Hn. induction t as [i rc effs ar q IHa IHq] using track_ind'. intro H. apply clean_unfold in H.
-  destruct H as [Hr [Ha Hq]]. cbn [push_under]. apply clean_unfold. split; [exact Hr|].
-  assert (Q : fa clean (map (push_under pid nt) q)).
-  { apply fa_map, fa_all. intros x Hx. apply (Forall_In _ _ _ IHq Hx). apply (proj1 (fa_in _ _) Hq x Hx). }
-  split.
-  - apply fa_map, fa_all. intros x Hx. apply (Forall_In _ _ _ IHa Hx). apply (proj1 (fa_in _ _) Ha x Hx).
-  - destruct (i =? pid); [|exact Q]. apply fa_app. split; [exact Q|]. apply fa_cons. split; [exact Hn|apply fa_nil].
-Qed.
-Lemma change_same_clean r t : clean t = true -> clean (change_track false r t) = true.
-Proof.
-  induction t as [i rc effs ar q IHa IHq] using track_ind'. intro H. apply clean_unfold in H. destruct H as [Hr [Ha Hq]].
-  cbn [change_track]. apply clean_unfold. split; [reflexivity|]. split; [|exact Hq].
-  apply fa_map, fa_all. intros x Hx. apply (Forall_In _ _ _ IHa Hx). apply (proj1 (fa_in _ _) Ha x Hx).
-Qed.
-Lemma change_quiet_clean d r t : no_queue t = true -> clean (change_track d r t) = true.
-Proof.
-  induction t as [i rc effs ar q IHa IHq] using track_ind'. intro H. cbn [no_queue] in H. destruct q; [|discriminate].
-  cbn [change_track]. apply clean_unfold. split; [reflexivity|]. split; [|destruct d; apply fa_nil].
-  apply fa_map, fa_all. intros x Hx. apply (Forall_In _ _ _ IHa Hx). apply (proj1 (fa_in _ _) H x Hx).
-Qed.
-
-Lemma NoRaced_init sr ibs main : NoRaced (init_state sr ibs main).
-Proof. split; reflexivity. Qed.
-
-Lemma step_NoRaced fo s o :
-  (match o with A_change r => (r =? s_rate s) || quiescent s | _ => true end) = true ->
-  NoRaced s -> NoRaced (fst (step fo s o)).
-Proof.
-  intros G [Ht Hp]. destruct o as [slot d sh|slot|r|n]; cbn [step].
-  - destruct (find_pending slot (s_pend s)); cbn [fst]; [split; assumption|].
-    split; [exact Ht|]. cbn [s_pend]. apply fa_app. split; [exact Hp|]. apply fa_cons. split; [reflexivity|apply fa_nil].
-  - destruct (find_pending slot (s_pend s)) as [p|] eqn:F; cbn [fst]; [|split; assumption].
-    pose proof (proj1 (fa_in _ _) Hp p (find_pending_in _ _ _ F)) as Pp. cbn beta in Pp.
-    pose proof (init_track_clean (p_loaded p) _ Pp) as Tn.
-    assert (Hp' : fa (fun p => clean (p_track p)) (remove_pending slot (s_pend s))) by (apply fa_filter; exact Hp).
-    split_tracks Ht.
-    destruct (p_dest p) as [|pid|]; cbn [fst]; unfold NoRaced, all_tracks; cbn [s_subs s_subq s_sends s_sendq s_pend];
-      (split; [|exact Hp']).
-    + repeat (apply fa_app; split); try assumption. apply fa_cons. split; [exact Tn|apply fa_nil].
-    + repeat (apply fa_app; split); try assumption.
-      * apply fa_map, fa_all. intros x Hx. apply push_under_clean; [exact Tn|]. apply (proj1 (fa_in _ _) T x Hx).
-      * apply fa_map, fa_all. intros x Hx. apply push_under_clean; [exact Tn|]. apply (proj1 (fa_in _ _) T0 x Hx).
-    + repeat (apply fa_app; split); try assumption. apply fa_cons. split; [exact Tn|apply fa_nil].
-  - cbn [fst]. unfold NoRaced, all_tracks. cbn [s_subs s_subq s_sends s_sendq s_pend].
-    split_tracks Ht. destruct (r =? s_rate s) eqn:E; cbn [negb].
-    + split; [|exact Hp]. repeat (apply fa_app; split); try assumption.
-      * apply fa_map, fa_all. intros x Hx. apply change_same_clean. apply (proj1 (fa_in _ _) T x Hx).
-      * apply fa_map, fa_all. intros x Hx. apply change_same_clean. apply (proj1 (fa_in _ _) T1 x Hx).
-    + cbn [orb] in G. unfold quiescent in G.
-      destruct (s_pend s); [|discriminate]. destruct (s_subq s); [|discriminate]. destruct (s_sendq s); [|discriminate].
-      apply andb_true_iff in G. destruct G as [G1 G2]. split; [|apply fa_nil]. cbn [map].
-      repeat (apply fa_app; split); try apply fa_nil.
-      * apply fa_map, fa_all. intros x Hx. apply change_quiet_clean. apply (proj1 (fa_in _ _) G1 x Hx).
-      * apply fa_map, fa_all. intros x Hx. apply change_quiet_clean. apply (proj1 (fa_in _ _) G2 x Hx).
-  - cbn [fst]. unfold NoRaced, all_tracks. cbn [s_subs s_subq s_sends s_sendq s_pend]. split; [|exact Hp].
-    split_tracks Ht. cbn [app]. rewrite app_nil_r. repeat (apply fa_app; split); try assumption.
-    + apply fa_map. apply fa_app. split; [apply fa_rev|].
-      * apply fa_all. intros x Hx. apply pickup_clean. apply (proj1 (fa_in _ _) T0 x Hx).
-      * apply fa_all. intros x Hx. apply pickup_clean. apply (proj1 (fa_in _ _) T x Hx).
-    + apply fa_rev. exact Ht.
-Qed.
-
-Lemma no_raced_ids l : fa clean l -> flat_map raced_ids l = [].
-Proof.
-  induction l as [|t l IH]; intro H; [reflexivity|]. apply fa_cons in H. destruct H as [H1 H2].
-  cbn [flat_map]. rewrite (clean_no_raced _ H1), (IH H2). reflexivity.
-Qed.
-
-(** ** the general theorem: under the guard, every [process] call of every callback of the history is in force *)
-Lemma guarded_all_in_force fo h : forall s, Inv s -> NoRaced s -> no_race fo s h = true -> all_in_force fo s h.
-Proof.
-  induction h as [|o h IH]; intros s HI HN G; cbn [all_in_force]; [exact I|].
-  cbn [no_race] in G. apply andb_true_iff in G. destruct G as [G1 G2].
-  pose proof (step_Inv fo s o HI) as HI'. pose proof (step_NoRaced fo s o G1 HN) as HN'.
-  split; [|apply IH; assumption].
+  unfold all_in_force. induction h as [|o h IH]; intros s HI; cbn [all_in_force_gen]; [exact I|].
+  pose proof (step_Inv fo s o HI) as HI'. unfold step in HI'.
+  split; [|apply IH; exact HI'].
   destruct o as [slot d sh|slot|r|n].
-  - cbn [step]. destruct (find_pending slot (s_pend s)); constructor.
-  - cbn [step]. destruct (find_pending slot (s_pend s)) as [p|]; [destruct (p_dest p)|]; constructor.
+  - cbn [step_gen]. destruct (find_pending slot (s_pend s)); constructor.
+  - cbn [step_gen]. destruct (find_pending slot (s_pend s)) as [p|]; [destruct (p_dest p)|]; constructor.
   - constructor.
-  - pose proof (callback_events fo s n HI) as CE. cbn zeta in CE.
-    destruct HN' as [Hc _]. unfold all_tracks in Hc.
-    apply fa_app in Hc. destruct Hc as [C1 Hc]. apply fa_app in Hc. destruct Hc as [_ Hc].
-    apply fa_app in Hc. destruct Hc as [C2 _].
-    rewrite no_raced_ids in CE by (apply fa_app; split; assumption).
-    eapply Forall_impl; [|exact CE]. intros [[[i t] d] m] [Hev|[]]. exact Hev.
+  - exact (callback_events fo s n HI).
 Qed.
 
-Theorem rate_in_force_guarded_l fo sr ibs main h :
-  no_race fo (init_state sr ibs main) h = true -> all_in_force fo (init_state sr ibs main) h.
-Proof. apply guarded_all_in_force; [apply Inv_init|apply NoRaced_init]. Qed.
+Theorem rate_in_force_all_histories_l fo sr ibs main h : all_in_force fo (init_state sr ibs main) h.
+Proof. apply Inv_all_in_force. apply Inv_init. Qed.
 
-(** without any guard: after any history, dt is the reciprocal of the device rate, the main-track effects and every
-    effect of every un-raced track were last told the device rate, and the calls of a further callback are in force
-    except for effects of raced tracks *)
-Theorem rate_in_force_all_histories_l fo sr ibs main h n :
-  let s := fst (run fo (init_state sr ibs main) h) in
-  let s' := fst (step fo s (A_callback n)) in
-  Inv s /\
-  Forall (ev_fine (s_rate s') (s_rate s') (flat_map raced_ids (s_subs s' ++ s_sends s'))) (snd (step fo s (A_callback n))).
-Proof.
-  cbn zeta. pose proof (run_Inv fo h _ (Inv_init sr ibs main)) as HI. split; [exact HI|]. apply callback_events. exact HI.
-Qed.
+(** the state after any history: [Inv] *)
+Theorem rate_invariant_all_histories_l fo sr ibs main h : Inv (fst (run fo (init_state sr ibs main) h)).
+Proof. apply run_Inv. apply Inv_init. Qed.
 
 (** the fan-out reaches everything that is in the arenas — from ANY state *)
 Fixpoint arena_fresh (r : Z) (t : track) : bool :=
-  match t with Trk _ _ effs ar _ => forallb (eff_fresh r) effs && forallb (arena_fresh r) ar end.
-Lemma change_track_arena_fresh d r t : arena_fresh r (change_track d r t) = true.
+  match t with Trk _ tr effs ar _ => (tr =? r) && forallb (eff_fresh r) effs && forallb (arena_fresh r) ar end.
+Lemma change_track_arena_fresh r t : arena_fresh r (change_track r t) = true.
 Proof.
-  induction t as [i rc effs ar q IHa IHq] using track_ind'. cbn [change_track arena_fresh]. apply andb_true_iff. split.
+  induction t as [i tr effs ar q IHa IHq] using track_ind'. cbn [change_track arena_fresh]. rewrite Z.eqb_refl. cbn [andb].
+  apply andb_true_iff. split.
   - apply tell_all_fresh.
   - apply fa_map, fa_all. intros x Hx. exact (Forall_In _ _ _ IHa Hx).
 Qed.
 Theorem change_reaches_arena_l fo s r :
   let s' := fst (step fo s (A_change r)) in
-  s_rate s' = r /\ s_dtr s' = r /\ fa (eff_fresh r) (s_main s') /\ fa (arena_fresh r) (s_subs s' ++ s_sends s').
+  s_rate s' = r /\ s_dtr s' = r /\ s_mix s' = r /\ fa (eff_fresh r) (s_main s') /\ fa (arena_fresh r) (s_subs s' ++ s_sends s').
 Proof.
   cbn. repeat split.
   - apply tell_all_fresh.
   - apply fa_app. split; apply fa_map, fa_all; intros x _; apply change_track_arena_fresh.
+Qed.
+
+(** pick-up brings every coherent track to the mixer's rate — from ANY state, whatever rate the track remembered *)
+Theorem pickup_syncs_l fo s n :
+  fa coherent (all_tracks s) ->
+  let s' := fst (step fo s (A_callback n)) in
+  fa (live (s_mix s)) (s_subs s' ++ s_sends s') /\ s_subq s' = [] /\ s_sendq s' = [].
+Proof.
+  intro H. unfold all_tracks in H. apply fa_app in H. destruct H as [C1 H]. apply fa_app in H. destruct H as [C2 H].
+  apply fa_app in H. destruct H as [C3 C4]. cbn. split; [|split; reflexivity].
+  apply fa_app. split; apply fa_map, fa_all; intros x Hx; apply start_track_live; apply in_app_or in Hx; destruct Hx as [Hx|Hx].
+  - apply in_rev in Hx. apply (proj1 (fa_in _ _) C2 x Hx).
+  - apply (proj1 (fa_in _ _) C1 x Hx).
+  - apply in_rev in Hx. apply (proj1 (fa_in _ _) C4 x Hx).
+  - apply (proj1 (fa_in _ _) C3 x Hx).
 Qed.
 
 (** a track whose load happens after the (last) change is told the rate in force, whatever happened before:
@@ -445,16 +348,15 @@ Theorem add_after_change_l fo s slot sh :
   find_pending slot (s_pend s) = None ->
   let s1 := fst (step fo s (G_load slot DSub sh)) in
   let s2 := fst (step fo s1 (G_enqueue slot)) in
-  exists t, s_subq s2 = s_subq s ++ [t] /\ trk_inv (s_rate s) t = true /\ trk_raced t = false /\ s_rate s2 = s_rate s.
+  exists t, s_subq s2 = s_subq s ++ [t] /\ live (s_rate s) t = true /\ s_rate s2 = s_rate s.
 Proof.
-  intro F. cbn [step]. rewrite F. cbn [fst s_pend].
+  intro F. unfold step. cbn [step_gen]. rewrite F. cbn [fst s_pend].
   assert (F2 : forall l p, find_pending slot l = None -> p_slot p = slot -> find_pending slot (l ++ [p]) = Some p).
   { induction l as [|a l IH]; intros p Hn Hs; cbn.
     - rewrite Hs, Z.eqb_refl. reflexivity.
     - cbn in Hn. destruct (p_slot a =? slot); [discriminate|]. apply IH; assumption. }
   set (p := {| p_slot := slot; p_dest := DSub; p_track := build_track sh; p_loaded := s_rate s |}).
   rewrite (F2 (s_pend s) p F eq_refl). cbn [p_dest p fst s_subq p_loaded p_track s_rate].
-  eexists. split; [reflexivity|]. split; [|split; reflexivity].
-  apply (init_pending_inv (s_rate s) p).
-  unfold pend_inv, build_track. cbn. rewrite Z.eqb_refl. reflexivity.
+  eexists. split; [reflexivity|]. split; [|reflexivity].
+  apply (init_pending_live p). reflexivity.
 Qed.
